@@ -73,6 +73,7 @@ const c23Contract = `access(all) contract N {
     access(all) fun pushInner(_ x: Box) { self.inner.append(x) }
     access(all) fun popInner() { if self.inner.length > 0 { self.inner.removeLast() } }
     access(all) fun clearInner() { self.inner = [] }
+    access(all) fun clearD() { self.d = {} }
     access(all) fun b0AppendAll(_ xs: [Int]) { if self.b.length > 0 { self.b[0].appendAll(xs) } }
   }
   access(all) fun mkColl(_ n: Int, _ t: Int): @Coll { return <- create Coll(n, t) }
@@ -175,6 +176,7 @@ var c23BoxOps = map[string]string{
 	"pushInnerBig": `r.pushInner(N.Box(150, 40))`,
 	"popInner":    `r.popInner()`,
 	"clearInner":  `r.clearInner()`,
+	"dClear":      `r.clearD()`,
 }
 
 // c23Source returns the transaction for an operation label, or "" if the
